@@ -11,6 +11,11 @@
 """
 import json, os, re, shutil, subprocess, sys, time
 
+# the checks run against REPO from VERIF (scratch copies when /repo is busy: tools/seedeval-isolated.sh);
+# what is kept always goes to /verif/seeded
+REPO = os.environ.get("SEEDEVAL_REPO", "/repo")
+VERIF = os.environ.get("SEEDEVAL_VERIF", "/verif")
+
 def sh(cmd, cwd=None, env=None, timeout=3600):
     e = dict(os.environ); e["CARGO_NET_OFFLINE"] = "true"
     if env: e.update(env)
@@ -72,21 +77,21 @@ def main():
     if not meta["confirmed"]:
         return finish(meta, sid, src, ok=False)
     # now against the checks
-    rc, out = sh("git -C /repo status --short"); assert out.strip() == "", "/repo not clean: " + out
-    rc, out = sh("git -C /repo apply %s" % patch); log("git -C /repo apply", rc, out)
+    rc, out = sh("git -C %s status --short" % REPO); assert out.strip() == "", "/repo not clean: " + out
+    rc, out = sh("git -C %s apply %s" % (REPO, patch)); log("git -C /repo apply", rc, out)
     detected = {}
     try:
         for p in ["C02", "C03", "C13", "C14", "C15", "C16", "C20"]:
             t0 = time.time()
-            rc, out = sh("./check %s quick 2>&1 | grep -v '^KNOWN-FINDING' | cut -c1-700 | head -8" % p, cwd="/verif")
+            rc, out = sh("./check %s quick 2>&1 | grep -v '^KNOWN-FINDING' | cut -c1-700 | head -8" % p, cwd=VERIF)
             rc2 = 1 if "VIOLATION property=" in out else (2 if "check:" in out and "violations:" not in out else 0)
             clauses = sorted(set(re.findall(r"^\s+(C\d\d\.[a-z-]+):", out, re.M)))
             detected[p] = {"verdict": {0: "silent", 1: "VIOLATION", 2: "error"}[rc2], "clauses": clauses, "wall_s": round(time.time() - t0, 1), "first_lines": out[:900]}
             print("   %s: %s %s" % (p, detected[p]["verdict"], clauses)); sys.stdout.flush()
     finally:
-        sh("git -C /repo checkout -- .")
-        shutil.rmtree("/verif/replays", ignore_errors=True)
-    rc, out = sh("git -C /repo status --short"); log("undo (git -C /repo checkout -- .), status", rc, out)
+        sh("git -C %s checkout -- ." % REPO)
+        shutil.rmtree(os.path.join(VERIF, "replays"), ignore_errors=True)
+    rc, out = sh("git -C %s status --short" % REPO); log("undo (git -C /repo checkout -- .), status", rc, out)
     meta["checks"] = detected
     meta["caught_by"] = [p for p, d in detected.items() if d["verdict"] == "VIOLATION"]
     meta["caught_by_own_property"] = prop in meta["caught_by"]
